@@ -44,16 +44,9 @@ def run(tier):
 
     # known-finding attribution needs the same input re-run with the lattice repaired in memory
     suspects = [i for i, v in enumerate(verdicts) if v["c06_bad"] and C.f4_signature(v.get("res") or {})]
-    repaired = {}
-    if suspects:
-        kind = {"F4": "kernel", "F4b": "one"}
-        for sig in ("F4", "F4b"):
-            idx = [i for i in suspects if C.f4_signature(verdicts[i]["res"]) == sig]
-            if idx:
-                o2 = C.run_cases([cases[i] for i in idx], False, 0, None, timeout, repair=kind[sig])
-                v2 = C.judge([cases[i] for i in idx], o2, False)
-                for i, w in zip(idx, v2):
-                    repaired[i] = w
+    repaired = C.attribution_runs(cases, verdicts, suspects, False, 0, None, timeout,
+                                  clean=lambda w: not w["c06_bad"]) if suspects else {}
+    latv = C.lattice_verdicts({i: verdicts[i]["res"] for i in suspects})
 
     validated = 0
     for ci, (case, v) in enumerate(zip(cases, verdicts)):
@@ -96,10 +89,11 @@ def run(tier):
                         "n0": res["n0"], "windows": v["windows"]}, limit=5)
         for b in v["c06_bad"]:
             rec = {"case": case["id"], "bases_q": res.get("bases_q"), "lattice": res.get("lattice"),
-                   "signature": C.f4_signature(res), "bad": b,
-                   "repaired_clean": (ci in repaired and repaired[ci]["status"] == "ok"
-                                      and not repaired[ci]["c06_bad"] and repaired[ci]["c06_ok"] + 0 >= 0),
-                   "repaired_basis": (repaired.get(ci, {}).get("res") or {}).get("basis_str")}
+                   "signature": C.f4_signature(res), "bad": b, "need": "unsound",
+                   "lattice_verdict": latv.get(ci),
+                   "repair_kind": (repaired.get(ci) or {}).get("kind"),
+                   "repaired_clean": bool((repaired.get(ci) or {}).get("clean")),
+                   "repaired_basis": (((repaired.get(ci) or {}).get("verdict") or {}).get("res") or {}).get("basis_str")}
             fid = attribute(PROP, rec)
             what = (f"{case['id']}: reported invariant {b['poly_str']} = 0 is false at n={b['n']} "
                     f"(value {b['value']}); closed forms {res.get('closed_forms')}")
